@@ -554,7 +554,7 @@ def job_stream(pid, ctx, n_random=None):
                     s.oracle_failures.append((i, c, ta, f"[C06] {ch} was force-killed at {t} ms, {t - max(m[ch] for m in mk)} ms after its grace period had elapsed (the kill is due at {max(m[ch] for m in mk)} ms)"))
         if "spawn:" in ta: s.nontrivial.add(hashlib.md5((c.split(" ", 1)[1] + ta).encode()).digest()[:8])
         if i % max(1, len(scripts) // 4) == 0 and len(s.samples) < 4: s.samples.append({"script": c, "impl": ta[:300], "model": tb[:300]})
-    # fault scripts (kill() or signal() of the child fails): no model comparison — the trace-level oracles only
+    # fault scripts (kill(), signal() or wait() of the child fails): compared with the fault-aware model AND judged by the trace-level oracles
     r = random.Random(ctx["seed"] * 131 + 7)
     fscripts = ["kf1 K0,I s:start;y;s:tryrestart;a:50", "kf2 K0,I s:start;y;s:restart;a:50;s:run:1;y", "kf3 K40,I s:start;y;s:stop;a:10;s:start;a:100",
                 "kf4 K0 s:start;y;s:gstop:15:20;a:100;s:towait;s:deletenow;a:50", "kf5 G,I s:start;y;s:gstop:15:30;a:100;s:start;y", "kf6 K0,I s:start;y;s:gtryrestart:15:20;a:100;s:run:2;y",
@@ -574,10 +574,28 @@ def job_stream(pid, ctx, n_random=None):
     if ffatal: s.error = ffatal; return s
     for c, why in fculprits: s.oracle_failures.append((0, c, "", f"[{pid}] the job task gave no answer on this fault script: {why}"))
     (d / "faults.txt").write_text("\n".join(f"{c}\t{fimpl.get(c, '')}" for c in fscripts) + "\n")
+    # the fault-aware task of the model (Wx/Job/Faults.lean: Jf.handleF / Jf.waitTurnsF) runs the same scripts
+    (d / "fcases.txt").write_text("\n".join(fscripts) + "\n")
+    ok, err = core.run_driver(["jobf", "all"], d / "fcases.txt", d / "fmodel.txt")
+    if not ok: s.error = "wxdriver jobf failed: " + err[-600:]; return s
+    fmodel = dict(zip(fscripts, core.read_lines(d / "fmodel.txt")))
     for i, c in enumerate(fscripts):
         if c not in fimpl: continue
         ta = fimpl[c].split(" ", 1)[1] if " " in fimpl[c] else ""
-        s.evaluations += 1; s.bump("fault script (kill / signal failure injected; oracle only)")
+        s.evaluations += 1; s.bump("fault script (kill / signal / wait failure injected; fault-aware model Jf + oracles)")
+        mo = fmodel.get(c, "")
+        falts = [job_norm(x) for x in (mo.split(" ", 1)[1] if " " in mo else "").split(" ## ")]
+        if job_norm(ta) not in falts:
+            if len(s.disagreements) < 200: s.disagreements.append((len(scripts) + i, c, ta, " ## ".join(falts[:3])))
+            # C07 / C09 under faults: a ticket resolving at a moment (or never) that no admissible run of the fault-aware model has
+            def ftks(t): return {e.split(":")[2]: int(e.split(":")[0]) for e in t.split("|") if e.split(":")[1:2] == ["tk"]}
+            it = ftks(ta); ats = [ftks(a) for a in falts]
+            for u in sorted(set(it) | set().union(*[set(a) for a in ats])):
+                want = {a.get(u) for a in ats}
+                if it.get(u) not in want:
+                    fmt = lambda x: "never" if x is None else f"at {x} ms"
+                    for prop in ("C07", "C09"):
+                        s.oracle_failures.append((len(scripts) + i, c, ta, f"[{prop}] with failing kill / signal / wait calls injected, ticket {u} resolves {fmt(it.get(u))}; a failed call ends its control (error handler, flag raised), which resolves it {' or '.join(sorted(fmt(w) for w in want))}"))
         for prop, what in job_oracles(c, ta):
             if prop in ("C04", "C07") and ("spawn of" in what or "panicked" in what or "job ended but" in what):
                 s.oracle_failures.append((len(scripts) + i, c, ta, f"[{prop}] {what}"))
@@ -600,24 +618,24 @@ def job_plan(pid, modules, theorems, rule_extra, partial=""):
         # an oracle failure is reported under the property it belongs to; others are left to that property's own check
         s.oracle_failures = [f for f in s.oracle_failures if f[3].startswith(f"[{pid}]")]
         return [s]
-    return dict(translate=True, modules=modules + ["Wx.Job.Api", "Wx.Job.ApiThm", "Wx.Job.ShapesThm"], theorems=theorems + ["Jm.api_generated", "Jm.jobApi_documented", "Jm.every_control_is_modelled", "Jm.every_model_control_exists", "Jm.priorities_are_the_models", "Jm.command_states_are_the_models"], bins=[("lib", ["wxjob"])], streams=streams,
+    return dict(translate=True, modules=modules + ["Wx.Job.Api", "Wx.Job.ApiThm", "Wx.Job.ShapesThm", "Wx.Job.Faults", "Wx.Job.FaultsThm"], theorems=theorems + ["Jf.runOpsF_noFaults", "Jf.FInv.runOpsF", "Jm.api_generated", "Jm.jobApi_documented", "Jm.every_control_is_modelled", "Jm.every_model_control_exists", "Jm.priorities_are_the_models", "Jm.command_states_are_the_models"], bins=[("lib", ["wxjob"])], streams=streams,
                 sources=["crates/supervisor/src/job/task.rs", "crates/supervisor/src/job/priority.rs", "crates/supervisor/src/job/state.rs", "crates/supervisor/src/job/job.rs",
                          "crates/supervisor/src/job/messages.rs", "crates/supervisor/src/flag.rs"],
                 rule="a case is one script (behaviour list + operation list); non-trivial = at least one child is spawned; distinct by (script body, implementation trace). " + rule_extra,
                 assumptions=["tokio: unbounded mpsc is FIFO, select! (biased) polls in order, paused-clock timers fire in deadline order — modelled; the eager scheduler of the model is the paused current-thread runtime of the harness",
                              "process-wrap child (wait/kill/signal) is replaced by a scripted child installed through the public spawn hook; real processes are exercised by C18/C08 streams only",
                              "Relaxed atomics in flag.rs are modelled as sequentially consistent",
-                             "in the Lean model kill() and signal() of a child always succeed (spawn may fail); failing kill / signal calls are exercised on the real job task by the fault scripts of the stream and judged by the trace-level oracles only",
+                             "failing kill() / signal() / wait() calls on the child are modelled by the overlay Jf (Wx/Job/Faults.lean), which the fault scripts of the stream are compared with; without faults Jf IS Jm (runOpsF_noFaults), C04 and the no-lost-flag invariant of C07 are proved for every fault script (c04_faults, c07_faults); the other whole-run theorems (C06 grace, C08 deadline, C09 refinement, C10 order) are about fault-free runs",
                              "a second sender on another thread is modelled by Op.inject (a send landing between a control's dequeue and the next recv); finer interleavings inside one control's handling do not exist in the code (no await between dequeue and the state change except the child's own kill/wait)"],
                 partial=partial)
 
-PLANS["C04"] = job_plan("C04", ["Wx.Job.C04Sim"], ["Jm.c04", "Jm.inv_runOps", "Jm.inv_stepOp"], "Oracle: at most one spawned-and-unreaped child at every point of the implementation trace.")
+PLANS["C04"] = job_plan("C04", ["Wx.Job.C04Sim", "Wx.Props.C04"], ["Jm.c04", "Jm.inv_runOps", "Jm.inv_stepOp", "Jf.c04_faults", "Jf.inv_turnsF", "Props.C04.at_most_one_live_under_faults"], "Oracle: at most one spawned-and-unreaped child at every point of the implementation trace.")
 PLANS["C06"] = job_plan("C06", ["Wx.Job.C06", "Wx.Job.C10b", "Wx.Job.C06w"],
     ["Jm.c06_no_early_kill", "Jm.c06_timer_not_short", "Jm.graceInv_simInv", "Jm.ext_handle", "Jm.handle_timer", "Jm.kill_in_spec", "Jm.graceful_stop_step", "Jm.graceful_restart_step", "Jm.signalChild_log", "Jm.timer_fires", "Jm.timer_not_early", "Jm.held_back", "Jm.killReap_log", "Jm.expiry_kills",
      "Jm.continue_clears", "Jm.no_extra_respawn_fixed", "Jm.extra_respawn_today", "Jm.c10_priority"],
     "Oracle: in scripts without forceful controls no kill happens before some graceful control's grace period has elapsed.")
-PLANS["C07"] = job_plan("C07", ["Wx.Job.C07b", "Wx.Job.C07w", "Wx.Job.C10c", "Wx.Job.C07t"],
-    ["Jm.c07_ticket_by_deadline", "Jm.c07_timer_fresh", "Jm.timerFresh_simInv", "Jm.c07_noLost", "Jm.c07_noLost_fails_today", "Jm.c07_tickets", "Jm.c07_tickets_fails_today", "Jm.c10_ran", "Jm.timer_fires", "Jm.expiry_kills"],
+PLANS["C07"] = job_plan("C07", ["Wx.Job.C07b", "Wx.Job.C07w", "Wx.Job.C10c", "Wx.Job.C07t", "Wx.Props.C07"],
+    ["Jf.c07_faults", "Jf.inv7_turnsF", "Jf.failCtl_raises", "Props.C07.no_flag_lost_under_faults", "Jm.c07_ticket_by_deadline", "Jm.c07_timer_fresh", "Jm.timerFresh_simInv", "Jm.c07_noLost", "Jm.c07_noLost_fails_today", "Jm.c07_tickets", "Jm.c07_tickets_fails_today", "Jm.c10_ran", "Jm.timer_fires", "Jm.expiry_kills"],
     "Oracle: the task never panics; after the job has ended no ticket stays unresolved; no run marker executes twice.",
     partial="bounded liveness is a theorem for grace timers (c07_ticket_by_deadline: a flag held by a timer has an unexpired deadline, virtual clock of the eager scheduler); a wait-for-end ticket on a child that never ends legitimately never resolves; real-time promptness is observed by the stream only")
 PLANS["C09"] = job_plan("C09", ["Wx.Job.C09", "Wx.Job.C09b", "Wx.Job.C09c"], ["Jm.handle_refines", "Jm.waitBranch_refines", "Jm.spawn_refines", "Jm.spawnB_refines", "Jm.continue_idle", "Jm.runInv_turns", "Jm.runInv_simInv", "Jm.c09_whole_run"],
